@@ -130,6 +130,7 @@ class Sched(object):
     if me.pending_exc is not None:
       e = me.pending_exc
       me.pending_exc = None
+      self.events.append((me.name, 'deliver', me.thread, type(e).__name__))
       raise e
 
   def block(self, wake, timeout=None, what=None):
@@ -183,6 +184,7 @@ class Sched(object):
   def thread_end(self, ts):
     ts.finished = True
     self.trace.append((ts.name, 'end'))
+    self.events.append((ts.name, 'finish', ts.thread, None))
     try:
       self._switch(ts)
     except (Deadlock, SchedulerStuck):
@@ -212,6 +214,7 @@ def _start(self):
   self.run = gated_run
   _real_start(self)
   ts.started = True
+  s.log('start', self)
   s.yield_point(('start', ts.name))
 
 
@@ -226,8 +229,19 @@ def _join(self, timeout=None):
 def _is_alive(self):
   ts = getattr(self, '_cosched_ts', None)
   if SCHED is None or ts is None:
+    if SCHED is not None and SCHED.me() is not None and getattr(self, '_started', None) is not None \
+        and not self._started.is_set():
+      SCHED.yield_point(('is_alive', None))
+      SCHED.log('is_alive', self, False)
+      return False
     return _real_is_alive(self)
-  return ts.started and not ts.finished
+  s = SCHED
+  if s.me() is not None:
+    s.yield_point(('is_alive', ts.name))
+  r = ts.started and not ts.finished
+  if s.me() is not None:
+    s.log('is_alive', self, r)
+  return r
 
 
 def _managed():
@@ -263,11 +277,13 @@ class CoLock(object):
     return ok
 
   def release(self):
+    # the release itself is atomic and cannot be interrupted by an asynchronous exception (it is C code in
+    # CPython): effect first, scheduling point (and possible delivery) afterwards
     s = _managed()
-    if s is not None:
-      s.yield_point(('release', self.role))
-      s.log('rel', self)
     self.owner = None
+    if s is not None:
+      s.log('rel', self)
+      s.yield_point(('release', self.role))
 
   def locked(self):
     return self.owner is not None
@@ -318,9 +334,9 @@ class CoRLock(object):
       self.count -= 1
       s.log('rerel', self)
       return
-    s.yield_point(('release', self.role))
     self.owner, self.count = None, 0
     s.log('rel', self)
+    s.yield_point(('release', self.role))
 
   def _is_owned(self):
     return SCHED is not None and self.owner is SCHED.me()
@@ -550,10 +566,14 @@ class _PyApi(object):
           t.pending_exc = None
           return 1
         e = exc.value if hasattr(exc, 'value') else exc
-        t.pending_exc = e() if isinstance(e, type) else e
-        s.trace.append((s.me().name if s.me() else '?', ('async_raise', t.name)))
         s.yield_point(('async_raise', t.name))
+        if t.finished:
+          s.log('async_raise', t.thread, False)
+          return 0
+        t.pending_exc = e() if isinstance(e, type) else e
+        s.log('async_raise', t.thread, True)
         return 1
+    s.log('async_raise', None, False)
     return 0
 
 
